@@ -13,6 +13,7 @@ def main():
     ap.add_argument('--no-dump', action='store_true', help='debug: reuse the existing MIR dump')
     a = ap.parse_args()
     seed = int(os.environ.get('VERIF_SEED', '0') or 0)
+    if a.tier == 'thorough': os.environ.setdefault('VERIF_CROSSCHECK', '1')     # sampled cvc5 re-decision of final queries (mirsym.core.solve)
     prop = a.prop.upper()
     rep = F.Report(prop, a.tier, seed)
     mod = importlib.import_module('props.' + prop.lower())
